@@ -58,6 +58,23 @@ CHECKS.update({
          "Exploration: exhaustive 2-thread core over clone/drop/strong_count/get_mut + try_unwrap, raw round trips, increment/decrement_strong_count + random programs (<= 8 handle operations).",
          "trusted: arcs.rs reference-count machine, replay, interpreter (handles created before the first spawn)", "§5-C11"),
 })
+CHECKS.update({
+ "C12": ("runtime monitoring: differential execution against std::sync::atomic as the sequential model, comparison after every operation",
+         "Exploration: 600 000 (quick) / 24 M (thorough) random operation sequences over all twelve atomic types, boundary-biased operands, all valid orderings.",
+         "trusted: std atomics; compare_exchange_weak compared with std's strong variant", "§5-C12"),
+ "C16": ("runtime monitoring: complete per-iteration records (outcomes, execution orders, decision paths, thread ids, initial-state probes) of the same programs compared between a fresh process, the same process after failed models, and an OS thread surrounded by other OS threads running models",
+         "Exploration over pairs/mixes of programs with fault injection (seven kinds of failing models run in between).",
+         "trusted: record digests, iteration hook; sanitizer lanes (TSan for the concurrent part, memcheck) are extra commands of the thorough tier", "§5-C16"),
+ "C17": ("runtime monitoring: init/drop counters in std atomics checked per iteration at the iteration hook, ownership marks, instance addresses, try_with inside destructors, loom's race detector on data written inside a lazy static's init",
+         "Exploration: exhaustive 2-thread core of static accesses + random programs with racing first accesses.",
+         "trusted: counters, iteration hook", "§5-C17"),
+ "C18": ("runtime monitoring: outcome sets of programs with yielding spin loops vs. the axiomatic reference with an await as a blocking read; panic classifier for the branch limit",
+         "Exploration: enumerated await shapes in every ordering pair + random programs + never-true loops.",
+         "trusted: rc11.rs, lit.rs interpreter", "§5-C18"),
+ "C20": ("runtime monitoring: block_on verdict (return value / deadlock panic) vs. an explicit-state model of poll/wait/wake, poll and wake counters, unique-id wakers registered in AtomicWaker",
+         "Exploration: every waking script of <= 3 steps for both waker-publication protocols, with and without the re-check, 1-2 waking threads.",
+         "trusted: fam_fut.rs reference model", "§5-C20"),
+})
 NOT_YET = {}
 def main():
     props = [json.loads(l) for l in open(os.path.join(ROOT, "properties.jsonl"))]
